@@ -4,6 +4,7 @@ CONSTANTS
   Kinds <- MCKinds
   SCtxs <- MCSCtxs
   FCtxs <- MCFCtxs
+  Faults <- MCFaults
   MaxSteps = @MAXSTEPS@
   MaxItems = @MAXITEMS@
 VIEW View
